@@ -21,7 +21,7 @@ MANIFEST = {
             "tied to app.go on every run by replaying sequenced event histories of the real App.Close (blocking and "
             "failing closers, closers of distinct zero-size types and struct-plus-first-field closers that share one address, "
             "GOMAXPROCS 1/2/default; Close invoked after Run returned, while Run is still inside callRunners with a blocking "
-            "runner, and by a runner itself) through the model's executable trace acceptor (vm_compute); overlapping Close calls on one App (Model/ConcMulti.v, product of independent close programs: c14_overlapping_closes, c14_overlapping_at_most_once, c14_overlapping_no_deadlock, acceptor multi_accepts exact) and closers handed over through app.Settings next to run options",
+            "runner, and by a runner itself) through the model's executable trace acceptor (vm_compute); overlapping Close calls on one App (Model/ConcMulti.v, product of independent close programs: c14_overlapping_closes, c14_overlapping_at_most_once, c14_overlapping_no_deadlock, acceptor multi_accepts exact) and closers handed over through app.Settings next to run options; closers that hold the App (created before it, found in creation by its closer list)",
     "design_ref": "DESIGN.md 5 C14",
     "note": "modelled, not verified: Go scheduler, sync.WaitGroup, go statement; the theorems cover all interleavings of the "
             "modelled atomic steps; a panicking closer is outside the property (it kills the process)",
@@ -45,9 +45,12 @@ def gen_shapes(rng, n):
         if n == 1 and rng.random() < 0.3:
             shapes[0] = "Z%d" % rng.randrange(N_ZERO_TYPES)
         return shapes
-    prof = rng.choice(["plain", "zero", "zero", "pair", "pair", "mixed", "mixed", "allzero", "nonstruct"])
+    prof = rng.choice(["plain", "zero", "zero", "pair", "pair", "mixed", "mixed", "allzero", "nonstruct", "holders"])
     if prof == "plain":
         return shapes
+    if prof == "holders":
+        # "A": a closer that holds the App (wire:"" *app.App) - created before the App, which then finds it in creation
+        return ["A" if rng.random() < 0.5 else "P" for _ in range(n)]
     if prof == "nonstruct":
         return ["N%d" % rng.randrange(3) if rng.random() < 0.6 else "P" for _ in range(n)]
     slots = list(range(n))
